@@ -181,6 +181,8 @@ const Property *find_property(const std::string &id) {
 const char *build_config() {
 #if defined(SIM_CONFIG_HEAP)
     return "heap";
+#elif defined(SIM_CONFIG_NOINFO) && defined(SIM_CONFIG_USER)
+    return "noinfouser";
 #elif defined(SIM_CONFIG_NOINFO)
     return "noinfo";
 #elif defined(SIM_CONFIG_DTOSTRE)
